@@ -102,13 +102,14 @@ def r62(db, ctx):
         ok_rs = False
         for b2, t2 in rs:
             a1 = norm(R.at(b2).operand(t2['args'][1]))
-            if a1[0] == 'call' and a1[1].endswith('len') and X.canon(a1[2][0]) == X.canon(norm(R.operand(t['args'][2]))):
+            rng = common.range_of_len(f, a1)
+            if rng is not None and X.canon(rng) == X.canon(norm(R.operand(t['args'][2]))):
                 ok_rs = True
         if not ok_rs:
             probs.append('the output is not resized to rows.len() rows (of the same range passed to the kernel) before the call')
         # (c) early return
         g1 = common.length_guard_strength(rels)[0] in ('exact', 'stronger')   # any guard implying len(seq) >= rows(pssm) is enough for memory safety
-        g2 = any(r[0] == 'false' and 'is_empty' in X.canon(r[1]) for r in rels)
+        g2 = common.range_nonempty(rels)
         if not (g1 and g2):
             probs.append('the call is not on the far side of the early return for len(seq) < rows(pssm) or empty rows')
         # the operands passed are the checked ones
